@@ -543,6 +543,36 @@ func VF_C01_LaterHistory(n, kind int) {
 			src2[i] = w
 		}
 		vf.Assert("list-unaffected-by-later-writes-to-source-array", eqInts(l2.AsArray(), xs))
+	case 6:
+		// bulk insertion into an empty and a non-empty list takes copies of the operand's values
+		for _, pre := range [][]int{{}, {w}} {
+			src := newArr(xs)
+			l := newList(pre)
+			l.AppendValues(src)
+			want := cat(pre, xs)
+			vf.Assert("appendvalues-appends", eqInts(l.AsArray(), want))
+			if n > 0 {
+				src.SetValue(1, w+1)
+				src.ReverseValues()
+			}
+			vf.Assert("list-unaffected-by-later-update-of-appended-array", eqInts(l.AsArray(), want))
+			src2 := newArr(xs)
+			l2 := newList(pre)
+			l2.InsertValues(0, src2)
+			if len(pre)+n > 0 {
+				l2.SetValue(1, w+1)
+				l2.ReverseValues()
+			}
+			vf.Assert("inserted-array-unaffected-by-later-update-of-list", eqInts(src2.AsArray(), xs))
+			src3 := newArr(xs)
+			l3 := newList(pre)
+			l3.AppendValues(src3)
+			if len(pre)+n > 0 {
+				l3.SetValue(-1, w+1)
+				l3.ReverseValues()
+			}
+			vf.Assert("appended-array-unaffected-by-later-update-of-list", eqInts(src3.AsArray(), xs))
+		}
 	}
 	vf.BudgetReset()
 	vf.Reach("end")
